@@ -76,7 +76,7 @@ def setup() -> None:
 
 
 def budget(tier: str) -> int:
-    return 3000 if tier == "quick" else 60000
+    return 3000 if tier == "quick" else 200000
 
 
 # ---------------------------------------------------------------------------
